@@ -126,3 +126,28 @@ def c07_tight_ranges_consume_rng(v):
     r = v['record']
     return (r.get('clause', '').startswith('perm:same trajectory') and r.get('tight') is True and r.get('ranges_before_init') is True
             and r.get('random_init') is True and r.get('first_differing_step') == 0 and r.get('field') == 'pop')
+
+
+@predicate
+def c11_pin_and_tie_not_fixed_point(v):
+    """every violated group mixes pinned members with tied members (pure pins and pure ties must hold)"""
+    r = v['record']
+    if not r.get('clause', '').startswith(('solver:every point evaluated after a collapse', 'solver:the final solution satisfies')):
+        return False
+    first = r.get('first') or []
+    groups = [g for f in first for g in f.get('groups', [])]
+    return bool(groups) and all(len(g.get('group', [])) >= 2 and g.get('pinned') for g in groups)
+
+
+@predicate
+def c11_collapse_at_final_stop(v):
+    r = v['record']
+    return (r.get('clause', '').startswith('solver:the final solution satisfies') and r.get('calls_after_last_collapse') == 0
+            and 'EvaluationLimits' in str(r.get('stop')))
+
+
+@predicate
+def c11_de_best_predates_collapse(v):
+    r = v['record']
+    return (r.get('clause', '').startswith('solver:the final solution satisfies') and r.get('solver') in ('de', 'de2')
+            and r.get('best_unchanged_since_a_collapse') is True)
